@@ -12,6 +12,7 @@ import (
 	"encoding/json"
 	"errors"
 	"fmt"
+	"os"
 	"sort"
 	"strings"
 	"sync"
@@ -164,7 +165,14 @@ type backend struct {
 	stmts []stmtRec
 	ver   VerCfg
 	win   Win
+	// complexity > 0: the answer to TraceQL's complexity-evaluation statement is scripted
+	// (the statement is still executed and judged), so that the per-portion processor runs
+	complexity int64
 }
+
+// isComplexityStmt recognises the statement of clickhouse_transpiler.PlanEval (the only
+// one that selects count() AS _count per prefix; same test as props/c11).
+func isComplexityStmt(q string) bool { return strings.Contains(q, "pre_final") }
 
 // ---- schema-version information (reader/utils/dbVersion) ------------------------------------
 //
@@ -360,6 +368,9 @@ func (b *backend) handle(ctx context.Context, q string, args []driver.NamedValue
 	rec.Scans = res.Scans
 	rec.Rows = len(res.Rows)
 	b.stmts = append(b.stmts, rec)
+	if b.complexity > 0 && isComplexityStmt(q) {
+		return fakesql.Rows([]string{"_count"}, []any{b.complexity}), nil
+	}
 	out := &fakesql.Result{Cols: res.Cols, FailAfter: -1}
 	for _, row := range res.Rows {
 		r := make([]any, len(row))
@@ -659,6 +670,10 @@ func clipSQL(s string) string {
 // outside the limits (time or signal type); every scan of an index table is filtered and
 // admits no row dated outside the covering date range.
 func checkScans(db *chsim.DB, stmts []stmtRec, lim limits, o *evid.Obs) error {
+	if os.Getenv("C13_NO_STRUCT") != "" {
+		// sensitivity experiments only: shows what the semantic oracle (a) catches on its own
+		return nil
+	}
 	for _, s := range stmts {
 		if s.Err != nil || (lim.Skip != nil && lim.Skip(s.SQL)) {
 			continue
